@@ -3,8 +3,9 @@
 -/
 import Xc.Lemmas.Gensalt
 import Xc.Lemmas.Accept2
+import Xc.Lemmas.Inj
 namespace Xc.C12
-open Xc
+open Xc List
 
 /-- too few random bytes ⇒ EINVAL, never a weaker or salt-less setting (given a buffer that passes the
     size tests which some writers perform first) -/
@@ -80,5 +81,125 @@ theorem C12_yescrypt_salt_is_input (count : Nat) (rb : Bytes) (n osize : Nat) (S
     have : Gen.CRYPT_OUTPUT_SIZE = 384 := rfl
     have : Gen.YESCRYPT_HASH_LEN = 43 := rfl
     omega)
+
+/-! ### standard salt sizes and whole-writer injectivity for the sha family, bcrypt and bsdicrypt -/
+
+/-- with at least 16 random bytes and room, the shared sha/md5 writer's salt loop runs `maxsalt / 4` times: 12 (6) bytes → 16 (8) characters -/
+theorem shaSaltLoop_full16 (n o : Nat) (rb : Bytes) (w : Nat) (hn : 16 ≤ n) (ho : w + 20 < o) :
+    shaSaltLoop 16 n o rb 17 w 0 = enc24 (le24 rb 0) ++ enc24 (le24 rb 3) ++ enc24 (le24 rb 6) ++ enc24 (le24 rb 9) := by
+  simp only [shaSaltLoop]
+  rw [if_pos (by omega), if_pos (by omega), if_pos (by omega), if_pos (by omega), if_neg (by omega)]
+  simp
+
+theorem shaSaltLoop_full8 (n o : Nat) (rb : Bytes) (w : Nat) (hn : 16 ≤ n) (ho : w + 12 < o) :
+    shaSaltLoop 8 n o rb 9 w 0 = enc24 (le24 rb 0) ++ enc24 (le24 rb 3) := by
+  simp only [shaSaltLoop]
+  rw [if_pos (by omega), if_pos (by omega), if_neg (by omega)]
+  simp
+
+/-- the head (tag and, for a non-default count, the `rounds=N$` field) that the shared writer emits for a clamped count -/
+def shaHead (tag : UInt8) (defc c : Nat) : Bytes :=
+  if c = defc then [36, tag, 36] else [36, tag, 36] ++ [114, 111, 117, 110, 100, 115, 61] ++ toDec c ++ [36]
+
+theorem shaHead_len (tag : UInt8) (defc c : Nat) (hc : c < 10000000000) : (shaHead tag defc c).length ≤ 21 := by
+  unfold shaHead
+  have := toDec_length_le10 c hc
+  split <;> simp <;> omega
+
+/-- **sha256crypt / sha512crypt, standard salt size**: with at least 16 random bytes and a buffer of the documented size the salt
+    is the 16-character (96-bit) encoding of the first twelve random bytes -/
+theorem gensaltSha_full16 (tag : UInt8) (defc minc maxc count : Nat) (rb : Bytes) (n o : Nat) (S : Bytes) (e : Nat)
+    (hmax : maxc < 10000000000) (hdef : 1 ≤ defc) (hmin : 1 ≤ minc) (hmm : minc ≤ maxc)
+    (h : gensaltSha tag 16 defc minc maxc count rb n o = .ok S e) (hn : 16 ≤ n) (ho : 192 ≤ o) :
+    S = shaHead tag defc (shaClamp defc minc maxc count) ++
+        (enc24 (le24 rb 0) ++ enc24 (le24 rb 3) ++ enc24 (le24 rb 6) ++ enc24 (le24 rb 9)) := by
+  unfold gensaltSha at h
+  split at h; · cases h
+  have hb := shaClamp_bounds defc minc maxc count hdef hmin hmm
+  generalize shaClamp defc minc maxc count = c at *
+  have hl := shaHead_len tag defc c (by omega)
+  unfold gensaltShaCore at h
+  dsimp only at h
+  generalize hol : (if c ≠ defc then 8 + 9 + ceilingSteps c else 8) = outputLen at h
+  have hh : (if c = defc then ([36, tag, 36] : Bytes) else [36, tag, 36] ++ [114, 111, 117, 110, 100, 115, 61] ++ toDec c ++ [36]) = shaHead tag defc c := rfl
+  rw [hh] at h
+  split at h; · cases h
+  split at h; · cases h
+  simp only [WOut.ok.injEq] at h
+  rw [← h.1, shaSaltLoop_full16 n o rb _ hn (by omega)]
+
+theorem le24_bytes (rb rb' : Bytes) (i : Nat) (h : le24 rb i = le24 rb' i) :
+    rbAt rb i = rbAt rb' i ∧ rbAt rb (i + 1) = rbAt rb' (i + 1) ∧ rbAt rb (i + 2) = rbAt rb' (i + 2) := by
+  unfold le24 at h
+  have b : ∀ (x : Bytes) (k : Nat), rbAt x k < 256 := fun x k => by unfold rbAt; exact (x.getD k 0).toNat_lt
+  have := b rb i; have := b rb (i + 1); have := b rb (i + 2); have := b rb' i; have := b rb' (i + 1); have := b rb' (i + 2)
+  omega
+
+theorem le24_lt (rb : Bytes) (i : Nat) : le24 rb i < 2 ^ 24 := by
+  unfold le24
+  have b : ∀ (k : Nat), rbAt rb k < 256 := fun k => by unfold rbAt; exact (rb.getD k 0).toNat_lt
+  have := b i; have := b (i + 1); have := b (i + 2)
+  omega
+
+/-- **injectivity**: the generated `$5$`/`$6$` salt determines the twelve random bytes it consumed (same count, same sizes) -/
+theorem gensaltSha_injective (tag : UInt8) (defc minc maxc count : Nat) (rb rb' : Bytes) (n o n' o' : Nat) (S : Bytes) (e e' : Nat)
+    (hmax : maxc < 10000000000) (hdef : 1 ≤ defc) (hmin : 1 ≤ minc) (hmm : minc ≤ maxc)
+    (h : gensaltSha tag 16 defc minc maxc count rb n o = .ok S e) (h' : gensaltSha tag 16 defc minc maxc count rb' n' o' = .ok S e')
+    (hn : 16 ≤ n) (ho : 192 ≤ o) (hn' : 16 ≤ n') (ho' : 192 ≤ o') : ∀ k, k < 12 → rbAt rb k = rbAt rb' k := by
+  have a := gensaltSha_full16 tag defc minc maxc count rb n o S e hmax hdef hmin hmm h hn ho
+  have b := gensaltSha_full16 tag defc minc maxc count rb' n' o' S e' hmax hdef hmin hmm h' hn' ho'
+  rw [a] at b
+  have hsalt := List.append_cancel_left b
+  have hlen : ∀ v, (enc24 v).length = 4 := fun v => rfl
+  have s0 := List.append_inj hsalt (by simp [hlen])
+  have s1 := List.append_inj s0.1 (by simp [hlen])
+  have s2 := List.append_inj s1.1 (by simp [hlen])
+  have g0 := le24_bytes rb rb' 0 (enc24_inj _ _ (le24_lt _ _) (le24_lt _ _) s2.1)
+  have g3 := le24_bytes rb rb' 3 (enc24_inj _ _ (le24_lt _ _) (le24_lt _ _) s2.2)
+  have g6 := le24_bytes rb rb' 6 (enc24_inj _ _ (le24_lt _ _) (le24_lt _ _) s1.2)
+  have g9 := le24_bytes rb rb' 9 (enc24_inj _ _ (le24_lt _ _) (le24_lt _ _) s0.2)
+  intro k hk
+  have : k = 0 ∨ k = 1 ∨ k = 2 ∨ k = 3 ∨ k = 4 ∨ k = 5 ∨ k = 6 ∨ k = 7 ∨ k = 8 ∨ k = 9 ∨ k = 10 ∨ k = 11 := by omega
+  rcases this with rfl | rfl | rfl | rfl | rfl | rfl | rfl | rfl | rfl | rfl | rfl | rfl
+  · exact g0.1
+  · exact g0.2.1
+  · exact g0.2.2
+  · exact g3.1
+  · exact g3.2.1
+  · exact g3.2.2
+  · exact g6.1
+  · exact g6.2.1
+  · exact g6.2.2
+  · exact g9.1
+  · exact g9.2.1
+  · exact g9.2.2
+
+/-- bcrypt: the 22 salt characters determine the sixteen random bytes -/
+theorem gensaltBf_injective (sub : UInt8) (count : Nat) (rb rb' : Bytes) (n o n' o' : Nat) (S : Bytes) (e e' : Nat)
+    (h : gensaltBf sub count rb n o = .ok S e) (h' : gensaltBf sub count rb' n' o' = .ok S e') : padTo rb 16 = padTo rb' 16 := by
+  unfold gensaltBf at h h'
+  simp only [] at h h'
+  split at h; · cases h
+  split at h; · cases h
+  split at h'; · cases h'
+  split at h'; · cases h'
+  simp only [WOut.ok.injEq] at h h'
+  have := h.1.trans h'.1.symm
+  have hh := List.append_cancel_left this
+  exact bfEncode_inj _ _ (by simp [padTo_length]) hh
+
+/-- bsdicrypt: the four salt characters determine the three random bytes -/
+theorem gensaltBsdi_injective (count : Nat) (rb rb' : Bytes) (n o n' o' : Nat) (S : Bytes) (e e' : Nat)
+    (h : gensaltBsdi count rb n o = .ok S e) (h' : gensaltBsdi count rb' n' o' = .ok S e') :
+    rbAt rb 0 = rbAt rb' 0 ∧ rbAt rb 1 = rbAt rb' 1 ∧ rbAt rb 2 = rbAt rb' 2 := by
+  unfold gensaltBsdi at h h'
+  split at h; · cases h
+  split at h; · cases h
+  split at h'; · cases h'
+  split at h'; · cases h'
+  simp only [WOut.ok.injEq] at h h'
+  have := h.1.trans h'.1.symm
+  have hh := List.append_cancel_left this
+  exact le24_bytes rb rb' 0 (enc24_inj _ _ (le24_lt _ _) (le24_lt _ _) hh)
 
 end Xc.C12
